@@ -69,6 +69,50 @@ Theorem strict_exec_no_panic : forall {rx : Type} (sok : N -> Prop) t fl cfg sup
   forall x, run_strict t fl cfg supplied budget regexes find call fuel matches g0 <> Panic x.
 Proof. intros rx. exact (@exec_no_panic_strict rx). Qed.
 
+(* The hypothesis "a capture whose quantifier is One has a node in every match" (part of GoodMatches) is a statement
+   about tree-sitter that the implementation relies on and that is NOT always true: tree-sitter keeps at most three
+   captures per query step, so in `(module (expression_statement (identifier) @_a @_b @_c @d)) { print @d }` the
+   capture @d has quantifier One and is never bound; both interpreters then panic with "missing capture"
+   (execution.rs:328) -- FINDING (same root cause as K3, different site).  Without that hypothesis this is the ONLY
+   site either interpreter can reach: *)
+Theorem strict_exec_only_missing_capture : forall {rx : Type} (sok : N -> Prop) t fl cfg supplied budget (regexes : list rx) find call fuel matches g0,
+  WellFormedFile regexes fl -> GoodMatchesResolved sok fl matches -> GoodGlobals sok g0 supplied -> GoodCall sok call ->
+  forall x, run_strict t fl cfg supplied budget regexes find call fuel matches g0 = Panic x -> x = P_missing_capture.
+Proof. intros rx. exact (@exec_only_missing_capture_strict rx). Qed.
+Theorem lazy_exec_only_missing_capture : forall {rx : Type} (sok : N -> Prop) t fl cfg supplied budget (regexes : list rx) find call fuel matches g0,
+  WellFormedFile regexes fl -> GoodMatchesLazyResolved sok fl matches -> GoodGlobals sok g0 supplied -> GoodCall sok call ->
+  forall x, run_lazy t fl cfg supplied budget regexes find call fuel matches g0 = Panic x -> x = P_missing_capture.
+Proof. intros rx. exact (@exec_only_missing_capture_lazy rx). Qed.
+(* and it is reached exactly in that class: an evaluated capture expression with quantifier One and no node *)
+Theorem missing_capture_witness_strict : forall t fl glob call fuel le name fidx sidx l s p,
+  nodes_for_capture (le_match le) sidx = [] ->
+  eval t fl glob call (S fuel) le (ECapture name QOne fidx sidx l) s p = Panic P_missing_capture.
+Proof. exact missing_capture_panics_strict. Qed.
+Theorem missing_capture_witness_lazy : forall t fl glob call fuel le name fidx sidx l s p,
+  nodes_for_capture (ll_match le) fidx = [] ->
+  leval t fl glob call (S fuel) le (ECapture name QOne fidx sidx l) s p = Panic P_missing_capture.
+Proof. exact missing_capture_panics_lazy. Qed.
+
+(* the model of the program above (capture 3 is the dropped @d): the weaker hypotheses hold and both runs panic there *)
+Example c05_missing_capture_reachable :
+  let nd := {| tn_kind := [109]; tn_named := true; tn_error := false; tn_missing := false; tn_parent := None;
+               tn_children := []; tn_start := (0, 0); tn_end := (0, 1); tn_span := (0, 1) |} in
+  let t := {| t_src := [120]; t_nodes := [nd] |} in
+  let st := {| st_stmts := [SPrint [ECapture [100] QOne 3 3 (1, 8)] (1, 2)];
+               st_full_stanza_idx := 4; st_full_file_idx := 4; st_start := (0, 0) |} in
+  let fl := {| f_globals := []; f_inherited := []; f_shorthands := []; f_stanzas := [st] |} in
+  let m := [(0, [0]); (1, [0]); (2, [0]); (4, [0])] in
+  WellFormedFile (@nil unit) fl /\ GoodMatchesResolved (syn_ok t) fl [[m]] /\ GoodMatchesLazyResolved (syn_ok t) fl [(0, m)] /\
+  run_strict t fl config0 [[]] None (@nil unit) (fun _ _ => None) (stdlib_call (fun _ _ _ => None) t) 50 [[m]] [] = Panic P_missing_capture /\
+  run_lazy t fl config0 [[]] None (@nil unit) (fun _ _ => None) (stdlib_call (fun _ _ _ => None) t) 50 [(0, m)] [] = Panic P_missing_capture.
+Proof.
+  cbv zeta. split; [reflexivity|]. split; [|split; [|split]].
+  - split; [|exact I]. constructor; [|constructor]. split; [discriminate|]. split; [reflexivity|]. repeat constructor.
+  - constructor; [|constructor]. split; [discriminate|]. split; [reflexivity|]. repeat constructor.
+  - vm_compute. reflexivity.
+  - vm_compute. reflexivity.
+Qed.
+
 (* the hypothesis on the function library holds of the standard library, with sok = "the node is in the tree,
    its span is inside the source and its parent is in the tree" *)
 Theorem stdlib_good_call : forall rx t, GoodCall (syn_ok t) (stdlib_call rx t).
